@@ -40,7 +40,7 @@ func (g *Gen) genCodec(n int) {
 	fs = append(fs, 0x8000000000000000, 0x000fffffffffffff, 0x0010000000000000, 0x7fefffffffffffff, 0xffefffffffffffff, 0xbff0000000000000)
 	for i := 0; i < 2000 && i < n; i++ {
 		fs = append(fs, math.Float64bits(float64(r.Intn(1<<20)))) // small integers: the compact case
-		fs = append(fs, math.Float64bits(float64(r.U64()>>11)))    // integers below 2^53
+		fs = append(fs, math.Float64bits(float64(r.U64()>>11)))   // integers below 2^53
 	}
 	for i := 0; i < n; i++ {
 		b := r.U64()
